@@ -1,8 +1,9 @@
 (* Props/C12.v — property C12: any order of writer calls is safe; misuse is reported, not absorbed.
-   Misuse theorems over Model/Writer.v.  The no-panic theorem over all call sequences is stated in
-   DESIGN.md 8/C12 and is carried by the exhaustive-depth correspondence until its proof lands. *)
+   The no-panic theorem over ALL call sequences and ALL sink behaviours (C12_no_panic, at the end), and the
+   misuse theorems over Model/Writer.v. *)
 From Coq Require Import ZArith.
-From ZipV Require Import Base.Bytes Base.Outcome Gen.CompressionGen Model.Readers Model.Reader Model.Writer Proofs.WriterMisuse.
+From ZipV Require Import Base.Bytes Base.Outcome Gen.CompressionGen Gen.TypesGen Model.Readers Model.Reader Model.Writer Model.WriterCalls
+     Proofs.WriterMisuse Proofs.WriterInv.
 Open Scope N_scope.
 
 (* writing data before any file is started, or after a directory or symlink (both clear the flag) *)
@@ -49,3 +50,30 @@ Theorem C12_extra_validation : forall f, validate_extra_data f = Ok tt ->
    unle (take 2 (drop 2 (w_extra f))) <= len (w_extra f) - 4).
 Proof. intros f H. split; [now apply extra_validation_len|now apply extra_validation_first]. Qed.
 Print Assumptions C12_extra_validation.
+
+(* ---------- every order of calls is safe.
+   For every compressor and checksum function, every plan of the sink (arbitrary short writes and failures at
+   arbitrary I/O calls), every list of API calls with arbitrary arguments -- names, contents, methods, levels,
+   permissions, alignment, extra data, ZipCrypto option, raw copies of arbitrary source records, comments, calls after
+   finish, a final drop -- on a fresh writer or on any archive opened for append: NO call ends in a panic, i.e. in any
+   of the model's panic sites (get_plain on a wrapped writer, unwrap of the last file, 16-bit extra length addition,
+   the alignment assertion, unwrap of the closed writer, the unreachable arms, position arithmetic, fuel, the
+   year-1980 subtraction).  The only requirement on the arguments is the type invariant of zip::DateTime
+   (year >= 1980, which its constructors enforce): [valid_call].
+   The proof is an invariant of the seven state components (Proofs/WriterInv.v, [Inv]) preserved by every call
+   whatever its result, by induction over the call list.  Planning this proof exposed defect D21. *)
+Theorem C12_no_panic : forall enc crc plan calls s' results,
+  Forall valid_call calls -> run_calls enc crc (new_writer plan) calls = (s', results) ->
+  Forall (fun r => is_panic r = false) results.
+Proof. intros enc crc plan calls s' results Hv H. exact (proj1 (run_calls_no_panic enc crc calls _ _ _ (inv_new plan) Hv H)). Qed.
+Print Assumptions C12_no_panic.
+
+Theorem C12_no_panic_append : forall enc crc data plan s0 calls s' results,
+  new_append data plan = Ok s0 -> Forall valid_call calls -> run_calls enc crc s0 calls = (s', results) ->
+  Forall (fun r => is_panic r = false) results.
+Proof. intros enc crc data plan s0 calls s' results Ha Hv H. exact (proj1 (run_calls_no_panic enc crc calls _ _ _ (inv_new_append _ _ _ Ha) Hv H)). Qed.
+Print Assumptions C12_no_panic_append.
+
+(* non-vacuity: the options the harness builds satisfy valid_call (DOS times decode to years >= 1980) *)
+Example C12_valid_example : forall d t dt, DateTime_from_msdos d t = Some dt -> time_ok dt.
+Proof. exact from_msdos_time_ok. Qed.
